@@ -18,9 +18,11 @@ func init() {
 			"(R5) getter <-> OptType constant <-> valueCache field tables agree (12 getters); " +
 			"(R6) SaveConfig writes, for every registered option, its user-set value exactly when one is set (no other condition decides membership in the saved map), keyed by the option key, and hands that map to the encoder whose output is written to the config file. " +
 			"(R7) lock pairing over the functions of package(s) config: " + lockRuleText + ". " +
+			"(R8) error discipline over package config: " + repoErrText + ". " +
 			"NOT decided: JSON encode->decode equality of values, semantics of validation functions/regexes, real setter/getter interleavings (R2-R4 are the protocol's necessary order/lock facts).",
 		Rules: []ruleFn{c04R1, c04R2, c04R3, c04R4, c04R5, c04R6,
-			lockRuleFor("C04-R7", 20, []string{"config"}, []string{}, map[string]string{})},
+			lockRuleFor("C04-R7", 20, []string{"config"}, []string{}, map[string]string{}),
+			repoErrRuleFor("C04-R8", 25, func(c *Ctx, fn *ssa.Function) bool { return short(fn.Pkg.Pkg.Path()) == "config" }, map[string]string{"config.AddToDebugInfo / config.ForEachOption": "the callback never returns an error", "config.GetActiveConfigValues / config.ForEachOption": "the callback never returns an error"})},
 	})
 }
 
